@@ -927,6 +927,9 @@ def _gp_hyp(
     elif isinstance(gp.mean, gpr.mean_functions.ConstantMean):
         # Lower maximum constant mean
         sd = np.std(hpd_y) if len(hpd_y) > 1 else 1.0
+        if not sd > 0:
+            # values without any spread: same default as for a single point
+            sd = 1.0
         priors["mean_const"] = ("gaussian", (mean_x0, sd))
         bounds["mean_const"] = (mean_bounds_info["LB"], mean_bounds_info["UB"])
 
